@@ -1,5 +1,6 @@
 import DispatchVerif.Core.HeapOps
 import DispatchVerif.Core.TimerP
+import DispatchVerif.Core.TimerD
 /-! # C11 — timers and dispatch_after never fire early and always fire (the provable cores)
 
 `HeapP` is the interleaved double min-heap of `src/event/event.c` on one logical heap: `resift` is the hole-based
@@ -60,6 +61,15 @@ theorem count_never_exceeds_boundaries (target deadline interval now prev : Nat)
     (ht : target ≤ now) (hn : now < 9223372036854775808) (hp : prev ≤ LONG_MAX) :
     (computeMissed target deadline interval now prev).data ≤ prev + boundaries target interval now :=
   data_le_boundaries target deadline interval now prev ht hn hp
+
+/-- **what the handler is told for a latched firing** (`_dispatch_source_timer_data`: the timer left the heap with a count
+    latched - it fired while suspended, while its handler was busy, or it is a one-shot): never more than the latched count
+    plus the interval boundaries that have passed; exactly the latched count while the (already advanced) target is ahead -/
+theorem latched_firing_count_bounded (target deadline interval now prev : Nat)
+    (hn : now < 9223372036854775808) (hp : prev / 2 ≤ LONG_MAX) :
+    (timerData target deadline interval now prev).data ≤
+      prev / 2 + (if target ≤ now then boundaries target interval now else 0) :=
+  timer_data_le_boundaries target deadline interval now prev hn hp
 
 /-- a one-shot timer is parked at "never" once it fired -/
 theorem oneshot_never_refires (target deadline interval now prev : Nat) (hi : ¬ interval < INT64_MAX) :
